@@ -1196,6 +1196,43 @@ def install_prefix_models(e):
 
 
 
+def _f32(v):
+    if isinstance(v, tuple) and v[0] == "fbits":
+        return z3.fpBVToFP(v[1], z3.Float32())
+    if is_sym(v):
+        return z3.fpBVToFP(v, z3.Float32())
+    return z3.FPVal(v, z3.Float32())
+
+
+def m_ref_f2h(e, st, a, I):
+    """reference IEEE conversion binary32 -> binary16, round to nearest even (z3's fp.to_fp)"""
+    x = a[0]
+    if not (isinstance(x, tuple) or is_sym(x)):
+        import numpy as np
+        return int(np.float32(x).astype(np.float16).view(np.uint16))
+    h = z3.fpFPToFP(z3.RNE(), _f32(x), z3.Float16())
+    return z3.fpToIEEEBV(h)
+
+
+def m_ref_h2f(e, st, a, I):
+    """reference conversion binary16 -> binary32 (exact)"""
+    h = a[0]
+    if not is_sym(h):
+        import numpy as np
+        return float(np.uint16(h & 0xFFFF).view(np.float16).astype(np.float32))
+    f = z3.fpFPToFP(z3.RNE(), z3.fpBVToFP(h, z3.Float16()), z3.Float32())
+    return ("fbits", z3.fpToIEEEBV(f))
+
+
+def m_f32_bits(e, st, a, I):
+    x = a[0]
+    if isinstance(x, tuple):
+        return x[1]
+    if is_sym(x):
+        return x
+    return struct.unpack("<I", struct.pack("<f", x))[0]
+
+
 def m_user_note(e, st, a, I):
     """sym_note(key, value): attach a concrete key/value to the path (shows up in violation records)"""
     k = cstr(e, st, a[0])
@@ -1336,6 +1373,7 @@ ALL.update({
     "sym_note": m_user_note, "sym_out_truncate": m_out_truncate, "sym_out_read": m_out_read, "sym_out_write": m_out_write,
     "sym_snapshot": m_snapshot, "sym_unchanged": m_unchanged, "sym_reach": m_reach2, "sym_out_clear": m_out_clear,
     "_ZNSo3putEc": m_put,
+    "sym_ref_f2h": m_ref_f2h, "sym_ref_h2f": m_ref_h2f,
     "sym_real": m_sym_real, "sym_pi": m_real_pi,
     "sqrt": m_real_sqrt, "sqrtf": m_real_sqrt, "cos": m_real_cos, "cosf": m_real_cos, "sin": m_real_sin, "sinf": m_real_sin,
     "asin": m_real_asin, "asinf": m_real_asin, "acos": m_real_acos, "acosf": m_real_acos,
@@ -1353,3 +1391,23 @@ def install(e):
     for nm in e.m.funcs:
         if nm.startswith("_ZSt7getlineIcSt11char_traitsIcESaIcEERSt13basic_istream"):
             e.models[nm] = m_std_getline
+
+
+# ---------------- per-property stubs (C12/C13): float-heavy helpers whose results are not part of the property
+def m_stub_bsphere(e, st, a, I):
+    """BoundingSphere(const std::vector<Vector3>&): an arbitrary sphere (4 fresh symbolic floats)"""
+    this = a[0]
+    for k in range(4):
+        e.store(st, P(this, 4 * k), ("fbits", e.fresh("bsphere", 32, st, log=False)), ("float",))
+
+
+def m_stub_noop(e, st, a, I):
+    return None
+
+
+def install_stubs(e, kinds):
+    for nm in e.m.funcs:
+        if "bsphere" in kinds and nm.startswith("_ZN5nifly14BoundingSphereC") and "St6vector" in nm:
+            e.models[nm] = m_stub_bsphere
+        if "tangents" in kinds and "CalcTangentSpace" in nm and nm.startswith("_ZN5nifly"):
+            e.models[nm] = m_stub_noop
